@@ -127,6 +127,7 @@ type Ctx struct {
 	maxCas   func() uint64
 	snap     map[string]uint64       // CAS of every key at the end of the sequential setup
 	foreign  map[uint64]bool         // CAS values this driver chose itself (SetWithMeta / DeleteWithMeta)
+	viewAPI  string                  // which view entry point viewRows uses ("" = View, "custom", "query")
 	topMark  func() uint64           // newest CAS of the bucket, if the driver knows one outside the operation's collection
 	onShown  func(cas uint64)        // called inside Update-style callbacks with the CAS of the version shown
 	swapDDoc func(coll string) error // replaces the design document of a collection by the other variant
@@ -372,8 +373,24 @@ func (x *Ctx) Exec(c *rosmar.Collection, bucket *rosmar.Bucket, op *GenOp) (a Ar
 		casOut, err = c.WriteResurrectionWithXattrs(ctx, op.Key, exp, body, sets, mopts)
 	case "WriteUpdateWithXattrs":
 		mo := &sgbucket.MutateInOptions{PreserveExpiry: op.Pres}
-		casOut, err = c.WriteUpdateWithXattrs(ctx, op.Key, XNames, 0, nil, mo,
+		// "apply-cur" / "apply-stale": the caller supplies the version to start from (the current one, or one with an
+		// outdated CAS, which must send the call back to reading); "retry": the callback asks once to be called again
+		var previous *sgbucket.BucketDocument
+		if op.Cb == "apply-cur" || op.Cb == "apply-stale" {
+			if b0, xs0, cas0, gerr := c.GetWithXattrs(ctx, op.Key, XNames); gerr == nil {
+				previous = &sgbucket.BucketDocument{Body: b0, Xattrs: xs0, Cas: cas0}
+				if op.Cb == "apply-stale" {
+					previous.Cas = cas0 - 1
+				}
+			}
+		}
+		asked := false
+		casOut, err = c.WriteUpdateWithXattrs(ctx, op.Key, XNames, 0, previous, mo,
 			func(doc []byte, xattrs map[string][]byte, cas uint64) (sgbucket.UpdatedDoc, error) {
+				if op.Cb == "retry" && !asked {
+					asked = true
+					return sgbucket.UpdatedDoc{}, sgbucket.ErrCasFailureShouldRetry
+				}
 				if x.onShown != nil {
 					x.onShown(cas)
 				}
